@@ -182,9 +182,24 @@ def run(res, tier, sc, drv, ws):
         if st_ != "rejected":
             res.violation("compile_sources %s the ill-formed program %s" % ("accepts" if st_ == "ok" else "answers %s for" % st_, os.path.basename(fpath)),
                           {"property": "C06", "program": prog, "status": st_, "file": fpath})
+    gen_rows = {"contexts": len(GEN_CONTEXTS), "faults": len(GEN_FAULTS), "programs": 0, "rejected": 0, "contexts_accepted": 0}
+    for name, prog, must in generated_rejects():
+        st_ = compile_status(drv, sc, prog)
+        gen_rows["programs"] += 1
+        if must == "ok":
+            if st_ != "ok":
+                res.inconc("reject corpus: the context %s is itself not accepted (%s); its faults prove nothing" % (name, st_))
+            else:
+                gen_rows["contexts_accepted"] += 1
+        elif st_ == "rejected":
+            gen_rows["rejected"] += 1
+        else:
+            res.violation("compile_sources %s an ill-formed program (fault@context %s)" % ("accepts" if st_ == "ok" else "answers %s for" % st_, name),
+                          {"property": "C06", "program": prog, "status": st_, "fault_at_context": name})
     res.coverage["reject_corpus"] = rejects
+    res.coverage["generated_reject_corpus"] = gen_rows
     res.coverage.update({
-        "states": len(paths), "transitions": obligations, "traces_validated_against_impl": len(gate) + len(rejects),
+        "states": len(paths), "transitions": obligations, "traces_validated_against_impl": len(gate) + len(rejects) + gen_rows["programs"],
         "obligations": obligations, "discharged": discharged, "path_classes": classes,
         "functions_encoded": [f.name], "gate_programs": gate, "solver_stats": dict(smt.STATS),
         "explanation": "states = MIR paths of process_raw_token; every path is one obligation over all literal values and pending-token kinds",
@@ -195,6 +210,86 @@ def run(res, tier, sc, drv, ws):
         "environment stubs (listed in checks/c06.py STUBS): str::parse::<i64> returns Ok(v>=0) or Err; report_invalid_syntax_error records a diagnostic; format!/alloc_string/Location::union are opaque",
         "only the integer-literal fault class of C06 is decided; type-level fault classes are outside the claim (DESIGN.md C06)",
     ]
+
+
+# ---- generated reject corpus: every fault in every expression context ---------------------------------------
+# A fault is an ill-formed expression of (intended) type int; a context is a well-formed program with a hole of type
+# int.  Every fault x context must be rejected by the real front end, and every context filled with `7` must be
+# accepted (so the context itself is not what gets rejected).  Checking positions matter: an argument of a generic
+# call is checked in synthesis mode, a lambda body against an expected type, etc.
+GEN_PRELUDE = """import { Option } from std.option;
+interface Ordered<T> { method compare(other: T): int }
+class Meter(val v: int) : Ordered<Meter> { method compare(other: Meter): int = this.v - other.v }
+class Plain(val v: int) {}
+class Cmp {
+  function <C: Ordered<C>> maxV(a: C, b: C): int = a.compare(b)
+  function <C: Ordered<C>> maxOf(a: C, b: C): C = if a.compare(b) < 0 { b } else { a }
+}
+class Cell<T>(val content: T) { function <T> of(content: T): Cell<T> = Cell.init(content) }
+class Secret { private function hidden(): int = 1 }
+class Helper {
+  function one(a: int): int = a
+  function two(a: int, b: int): int = a + b
+  function <T> id(t: T): T = t
+  function apply(f: (int) -> int): int = f(1)
+}
+"""
+GEN_FAULTS = {
+    "bound_inferred": "Cmp.maxV(Plain.init(1), Plain.init(2))",
+    "bound_explicit": "Cmp.maxV<Plain>(Plain.init(1), Plain.init(2))",
+    "bound_result_used": "Cmp.maxOf(Plain.init(1), Plain.init(2)).v",
+    "operand_type": '(1 + "a")',
+    "unknown_member": "Plain.init(1).nope",
+    "arity": "Helper.two(1)",
+    "argument_type": 'Helper.two(1, "x")',
+    "unresolved_variable": "undefinedVariable",
+    "unresolved_class": "Nope.f()",
+    "private_member": "Secret.hidden()",
+    "condition_not_bool": "(if 1 { 1 } else { 2 })",
+    "branch_mismatch": '(if true { 1 } else { "s" })',
+    "non_exhaustive_match": "(match Option.Some(1) { Some(x) -> x })",
+    "refutable_let": "{ let Some(y) = Option.Some(1); y }",
+    "call_non_function": "{ let n = 1; n(2) }",
+    "type_args_arity": "Helper.id<int, int>(1)",
+    "literal_range": "2147483648",
+    "duplicate_binding": "{ let a = 1; let a = 2; a }",
+    "wrong_result_type": '"text"',
+    "unit_as_int": "Process.println(\"x\")",
+}
+GEN_CONTEXTS = {
+    "statement": "class Main { function main(): unit = { let _ = HOLE; } }",
+    "call_argument": "class Main { function main(): unit = { let _ = Helper.one(HOLE); } }",
+    "generic_call_argument": "class Main { function main(): unit = { let _ = Cell.of(HOLE); } }",
+    "nested_generic_call_argument": "class Main { function main(): unit = { let _ = Cell.of(Cell.of(HOLE)); } }",
+    "generic_id_then_call": "class Main { function main(): unit = { let _ = Helper.one(Helper.id(HOLE)); } }",
+    "annotated_lambda_body": "class Main { function main(): unit = { let f = (x: int) -> HOLE; let _ = f(1); } }",
+    "checked_lambda_body": "class Main { function main(): unit = { let _ = Helper.apply((y) -> HOLE); } }",
+    "lambda_in_generic_call": "class Main { function main(): unit = { let _ = Cell.of((y: int) -> HOLE); } }",
+    "if_branch": "class Main { function main(): unit = { let _ = if true { HOLE } else { 0 }; } }",
+    "match_arm": "class Main { function main(): unit = { let _ = match Option.Some(1) { Some(x) -> HOLE, None -> 0 }; } }",
+    "constructor_field": "class Main { function main(): unit = { let _ = Plain.init(HOLE); } }",
+    "binary_operand": "class Main { function main(): unit = { let _ = 1 + HOLE; } }",
+    "block_local": "class Main { function main(): unit = { let _ = { let z = HOLE; z }; } }",
+    "function_body": "class Main { function g(): int = HOLE  function main(): unit = { let _ = Main.g(); } }",
+    "method_body": "class W(val a: int) { method m(): int = HOLE }\nclass Main { function main(): unit = { let _ = W.init(1).m(); } }",
+    "option_payload": "class Main { function main(): unit = { let _ = Option.Some(HOLE); } }",
+}
+# (fault, context) pairs in which the hole is not constrained to int, so a well-typed non-int fault is legal there
+GEN_UNCONSTRAINED = {"statement", "generic_call_argument", "nested_generic_call_argument", "annotated_lambda_body", "lambda_in_generic_call",
+                     "block_local", "option_payload"}
+GEN_NEEDS_INT = {"wrong_result_type", "unit_as_int"}
+
+
+def generated_rejects():
+    """-> [(name, program, must_be)]"""
+    out = []
+    for cn, ctx in GEN_CONTEXTS.items():
+        out.append(("ctx:%s" % cn, GEN_PRELUDE + ctx.replace("HOLE", "7") + "\n", "ok"))
+        for fn, fault in GEN_FAULTS.items():
+            if fn in GEN_NEEDS_INT and cn in GEN_UNCONSTRAINED:
+                continue
+            out.append(("%s@%s" % (fn, cn), GEN_PRELUDE + ctx.replace("HOLE", fault) + "\n", "rejected"))
+    return out
 
 
 def compile_status(drv, sc, prog):
